@@ -3,6 +3,7 @@
 (* Trace specification for the label pipeline.  Event                       *)
 (*   Label  key, field, cls    the real prepare_label(key, True, snake) for *)
 (*                             snake = True / False, as character sequences *)
+(*          clsname            GenericModelCodeGenerator.convert_class_name *)
 (* Clauses (C11): a key that leads with a letter gets valid identifiers.    *)
 (* Drift: the real labels are not what Labels!FieldLabel / ClassLabel give. *)
 (***************************************************************************)
@@ -20,8 +21,8 @@ Clauses(ev) ==
   << <<"C11.label-total", StripNonWord(ev.key) # <<>>, StripNonWord(ev.key) = <<>> \/ ev.exc = "">>,
      <<"C11.ood.empty-label", StripNonWord(ev.key) = <<>>, StripNonWord(ev.key) # <<>> \/ ev.exc = "">>,
      <<"C11.label-valid", ev.exc = "" /\ LeadsWithLetter(ev.key),
-       ~(ev.exc = "" /\ LeadsWithLetter(ev.key)) \/ (ValidIdent(ev.field) /\ ValidIdent(ev.cls))>> >>
-Drifts(ev) == ev.ev = "Label" /\ ev.exc = "" /\ (ev.field # FieldLabel(ev.key) \/ ev.cls # ClassLabel(ev.key))
+       ~(ev.exc = "" /\ LeadsWithLetter(ev.key)) \/ (ValidIdent(ev.field) /\ ValidIdent(ev.cls) /\ ValidIdent(ev.clsname))>> >>
+Drifts(ev) == ev.ev = "Label" /\ ev.exc = "" /\ (ev.field # FieldLabel(ev.key) \/ ev.cls # ClassLabel(ev.key) \/ ev.clsname # ClassName(ev.key))
 FirstFailing(cs) == LET bad == {i \in DOMAIN cs : ~cs[i][3]} IN IF bad = {} THEN "ok" ELSE cs[Min(bad)][1]
 LiveOf(cs) == {cs[i][1] : i \in {j \in DOMAIN cs : cs[j][2]}}
 Init == /\ tid \in DOMAIN Traces /\ l = 1 /\ verdict = "ok" /\ drift = 0 /\ live = {}
